@@ -164,6 +164,8 @@ class Layouts:
             if not isinstance(a, int) or not isinstance(b, int):
                 raise Unknown("arithmetic on non-integers")
             op = e[1].replace("Unchecked", "")
+            if op in ("Eq", "Ne", "Lt", "Le", "Gt", "Ge"):
+                return int({"Eq": a == b, "Ne": a != b, "Lt": a < b, "Le": a <= b, "Gt": a > b, "Ge": a >= b}[op])
             wo = op.endswith("WithOverflow")
             op = op.replace("WithOverflow", "")
             try:
@@ -284,6 +286,26 @@ class Layouts:
             if r is not None:
                 return self.eval(r, shapes, args, tail_len)
             raise Unknown("call " + path)
+        if k == "un" and e[1] == "Not":
+            a = self.eval(e[2], shapes, args, tail_len)
+            if isinstance(a, int) and a in (0, 1):
+                return 1 - a
+            raise Unknown("negation of a non-boolean")
+        if k == "cases":
+            # path-sensitive summary of a helper with early returns (`if size_of::<H>() == 0 { return slice; }`): the branch
+            # conditions are integer expressions over the same shapes
+            for conds, val in e[1]:
+                hit = True
+                for d, rel, v in conds:
+                    x = self.eval(d, shapes, args, tail_len)
+                    if not isinstance(x, int):
+                        raise Unknown("branch condition is not an integer")
+                    if (rel == "eq" and x != v) or (rel == "notin" and x in v):
+                        hit = False
+                        break
+                if hit:
+                    return self.eval(val, shapes, args, tail_len)
+            raise Unknown("no case of the summary applies")
         raise Unknown("node " + str(k))
 
 
